@@ -40,7 +40,11 @@ def run_demo():
         pkg = "./" + os.path.dirname(d) if os.path.dirname(d) else "."
         if d.endswith("_test.go"):
             m = re.search(r"-run\s+'?\"?([\w|^$()]+)", open(f, errors="replace").read(600))
-            runpat = m.group(1) if m else "Seed"
+            if m:
+                runpat = m.group(1)
+            else:
+                names = re.findall(r"^func (Test\w+)\(", open(f, errors="replace").read(), re.M)
+                runpat = "^(" + "|".join(names) + ")$" if names else "Seed"
             rc, out = sh(f"go test -vet=off -count=1 -run '{runpat}' {pkg}", cwd=repo)
         else:
             rc, out = sh(f"go run {pkg}", cwd=repo)
